@@ -46,10 +46,22 @@ CODES = {
     "C12": {1, 2, 3, 5, 9},
     "C13": {11},
     "C14": {1, 5, 6, 9, 12, 13},
+    # integrity (ExecI.v): 20 image does not load in the model, 21 NewVerifier, 22 Verify, 23 callback
+    # reports, 24 AnySignedBy, 25 AllSignedBy; 30 image does not load, 31 NewSigner/Sign result, 32 signed bytes
+    "C04": {20, 21, 22, 23},
+    "C05": {20, 21, 22, 23},
+    "C06": {20, 21, 22, 23, 30, 31, 32},
+    "C07": {20, 21, 22, 23},
+    "C16": {20, 21, 22, 23},
+    "C17": {20, 21, 24, 25},
 }
+CODES["C12"] = CODES["C12"] | {30, 31, 32}
 CODE_NAMES = {1: "result", 2: "in-memory header", 3: "in-memory descriptors", 4: "minimum-ID cache",
               5: "backing bytes", 6: "buffer position", 7: "live object content",
-              8: "header/table region", 9: "backing length", 10: "handle presence", 11: "query answer", 12: "backend call reply", 13: "backend final contents"}
+              8: "header/table region", 9: "backing length", 10: "handle presence", 11: "query answer", 12: "backend call reply", 13: "backend final contents",
+              14: "storage-call trace", 20: "image does not load in the model", 21: "NewVerifier result", 22: "Verify result",
+              23: "verification callback reports", 24: "AnySignedBy", 25: "AllSignedBy",
+              30: "image does not load in the model", 31: "NewSigner/Sign result", 32: "bytes after signing"}
 
 TRUSTED_BASE = [
     "Coq 8.16.1 kernel and its bytecode VM (vm_compute); no native_compute",
@@ -248,7 +260,20 @@ def determ_args(tier, seed, variant=""):
     return ["-seed", str(seed), "-n", "1200", "-shards", "48", "-maxcap", "16", "-maxops", "30", "-bigevery", "60"]
 
 
+def verify_args(mode, nq, nt):
+    def f(tier, seed, variant=""):
+        if tier == "quick":
+            return ["-mode", mode, "-seed", str(seed), "-n", str(nq), "-shards", "16"]
+        return ["-mode", mode, "-seed", str(seed), "-n", str(nt), "-shards", "64", "-thorough"]
+    return f
+
+
 FAMILIES = {
+    "C04": [("verify", verify_args("tamper", 60, 100000))],
+    "C05": [("verify", verify_args("coverage", 80, 100000)), ("verify", verify_args("tamper", 30, 400))],
+    "C07": [("verify", verify_args("keys", 48, 600))],
+    "C16": [("verify", verify_args("legacy", 10, 200))],
+    "C17": [("verify", verify_args("signedby", 50, 800))],
     "C01": [("hist", hist_args)],
     "C12": [("determ", determ_args)],
     "C14": [("backend", backend_args), ("lockstep", lockstep_args)],
@@ -305,8 +330,8 @@ def decide(prop, tier, seed):
     oracle_findings = []
     relevant = CODES.get(prop, set(range(1, 11)))
     if b["ok_go"]:
-        for fam, argf in FAMILIES.get(prop, []):
-            outdir = os.path.join(WORK, "%s-%s-%d" % (prop, fam, os.getpid()))
+        for k, (fam, argf) in enumerate(FAMILIES.get(prop, [])):
+            outdir = os.path.join(WORK, "%s-%s%d-%d" % (prop, fam, k, os.getpid()))
             summary, mism, err = run_family(fam, argf(tier, seed), outdir, log)
             if err:
                 broken.append("correspondence %s: %s" % (fam, err[-600:]))
@@ -329,8 +354,8 @@ def decide(prop, tier, seed):
                 total_cases += summary["cases"]
                 total_steps += summary["steps"]
                 distinct += summary["distinct_nontrivial"]
-                samples.extend(summary["samples"][:2])
-                fam_summaries[fam] = {k: summary.get(k) for k in ("cases", "steps", "queries", "op_kinds", "results", "backends",
+                samples.extend((summary.get("samples") or [])[:2])
+                fam_summaries[summary.get("family", fam)] = {k: summary.get(k) for k in ("cases", "steps", "queries", "op_kinds", "results", "backends",
                                                                    "capacities", "clock_brackets", "clock_out_of_bracket",
                                                                    "oracle_checks", "extra")}
                 for f in summary.get("oracle_findings") or []:
@@ -341,6 +366,7 @@ def decide(prop, tier, seed):
     # known findings
     known = load_known()
     known_classes = {k["class"]: k for k in known.get("known", []) if k["property"] == prop}
+    known_classes.pop(None, None)
     new_findings = [f for f in oracle_findings if f.get("class") not in known_classes]
     seen_known = sorted({f["class"] for f in oracle_findings if f.get("class") in known_classes})
     witness_results = {}
